@@ -31,7 +31,8 @@
      S5 GcExclusive    a file being garbage collected is held by nobody (no writer handle,
                        not in the unopened set, no reader handle) and no acquire returns
                        it until compaction has finished (rejuvenate) or was abandoned
-                       (restoreUnopened).
+                       (restoreUnopened); a pass that does not compact leaves the file in
+                       the writer set it was in (GcNoop: UNCHANGED).
      S6 AfterClose     after DB.Close returned nil nothing is open (no descriptor on any
                        file, counter file and index file included).
      S7 NoBlockWhenAllIdle   if every open descriptor is idle, an acquire does not block.
